@@ -32,9 +32,21 @@ class BadStrError(Exception):
 
 LongNameError = type("L" + "o" * 230 + "ngError", (RuntimeError,), {"__module__": __name__})
 
+# classes whose BARE name is shared by a class of another module (the caller must still tell them apart)
+import twisted.internet.error as _twerr
+RejectedA = type("Rejected", (Exception,), {"__module__": "appalpha.errors"})
+RejectedB = type("Rejected", (LookupError,), {"__module__": "appbeta.errors"})
+RejectedC = type("Rejected", (RejectedB,), {"__module__": "appbeta.sub.errors"})
+HomonymValueError = type("ValueError", (Exception,), {"__module__": "appalpha.errors"})
+HOMONYMS = {"Rejected@alpha": RejectedA, "Rejected@beta": RejectedB, "Rejected@beta.sub": RejectedC,
+            "TimeoutError@builtins": TimeoutError, "TimeoutError@twisted": _twerr.TimeoutError,
+            "ConnectionRefusedError@builtins": ConnectionRefusedError, "ConnectionRefusedError@twisted": _twerr.ConnectionRefusedError,
+            "ValueError@alpha": HomonymValueError}
+
 EXC_CLASSES = {"ValueError": ValueError, "KeyError": KeyError, "ZeroDivisionError": ZeroDivisionError,
                "MyError": MyError, "MyDeepError": MyDeepError, "CafeError": CaféError, "LongNameError": LongNameError,
                "AssertionError": AssertionError, "OSError": OSError, "BadStrError": BadStrError}
+EXC_CLASSES.update(HOMONYMS)
 
 
 class Unsendable(object):
@@ -62,6 +74,9 @@ class RIThing(RemoteInterface):
         return int
 
     def wrongresult(a=int):
+        return int
+
+    def multi(a=ListOf(int), b=ListOf(int), c=ListOf(int)):
         return int
 
 
@@ -93,6 +108,10 @@ class Plain(Referenceable):
         EXECUTED.append("text")
         return u"text"
 
+    def remote_echo3(self, a, b, c):
+        EXECUTED.append("echo3")
+        return 3
+
 
 from zope.interface import implementer
 
@@ -110,6 +129,10 @@ class Typed(Referenceable):
     def remote_wrongresult(self, a):
         EXECUTED.append("wrongresult")
         return "not an int"
+
+    def remote_multi(self, a, b, c):
+        EXECUTED.append("multi")
+        return len(a) + len(b) + len(c)
 
 
 def nest(depth, leaf, sibling=None):
@@ -202,9 +225,43 @@ def setup(opts):
     return tb, cb, dict(plain=rr_plain, typed=rr_typed, bogus=rr_bogus), (plain, typed)
 
 
+CALLER_SIDE = ("unsendable", "slicer-raises", "surrogate")     # the caller's own serializer gives up at this argument
+CALLEE_SIDE = ("illtyped", "illtyped-deep")                    # only the callee's schema objects (the caller sends it)
+SLOT_KINDS = ("ok",) + CALLEE_SIDE + CALLER_SIDE
+
+
+def slot_value(kind, i):
+    """the i-th argument of a `multi` call"""
+    if kind == "ok":
+        return [i, i + 1]
+    if kind == "illtyped":
+        return [i, "x", i]
+    if kind == "illtyped-deep":
+        return [i, [[i]], i]
+    if kind == "unsendable":
+        return [i, Unsendable()]
+    if kind == "slicer-raises":
+        return [i, RaisingSlicer(1)]
+    if kind == "surrogate":
+        return [i, u"ab\udcffcd"]
+    raise ValueError(kind)
+
+
+def multi_args(spec):
+    return [slot_value(k, i) for i, k in enumerate(spec["slots"])]
+
+
 def issue(rrs, spec):
     """spec: dict(kind=..., ...) -> Deferred"""
     k = spec["kind"]
+    if k == "multi":
+        # several faults in ONE call: each of the three arguments may be fine, rejected by the callee's schema only, or
+        # unserializable on the caller; the method may be unknown to the callee's interface; on the schema-less target
+        # only the caller-side faults count
+        a = multi_args(spec)
+        if spec["target"] == "plain":
+            return rrs["plain"].callRemote("echo3", a[0], a[1], c=a[2])
+        return rrs["typed"].callRemote("multi" if spec.get("known", True) else "nosuchmulti", a[0], b=a[1], c=a[2])
     if k == "ok":
         return rrs["plain"].callRemote("echo", spec["v"])
     if k == "ok-add":
@@ -262,6 +319,10 @@ def describe(res, expose):
     out["copied"] = isinstance(f, call.CopiedFailure)
     if out["copied"]:
         out["type"] = reflect.qual(f.type)
+        # every way the application can look at "which exception was it"
+        out["type_views"] = dict(module=getattr(f.type, "__module__", None), name=getattr(f.type, "__name__", None),
+                                 repr=repr(f.type),
+                                 reforwarded=six_str(call.CopiedFailureSlicer(f).getStateToCopy(f, FakeBroker(False))["type"]))
         out["value"] = f.value
         out["parents"] = list(f.parents)
         out["traceback"] = f.traceback
@@ -272,6 +333,10 @@ def describe(res, expose):
         out["traceback"] = None
     out["failure"] = f
     return out
+
+
+def six_str(b):
+    return b.decode("utf-8") if isinstance(b, bytes) else b
 
 
 class Tap:
